@@ -19,10 +19,12 @@ def stop_case(draw):
   stop_at = draw(st.integers(0, 8)) * 0.25
   timed = {str(stop_at): [list(x) for x in draw(st.lists(st.tuples(st.integers(0, 5), st.integers(1, 40)),
                                                          max_size=6))]}
-  return {"sources": sources, "stop_from": draw(st.sampled_from(["outside", "outside", "handler"])),
+  return {"sources": sources, "stop_from": draw(st.sampled_from(["outside", "outside", "handler", "other_handler"])),
           "stop_at": stop_at, "timed_schedule": timed,
           "posts_before": draw(st.integers(0, 3)), "posts_with_stop": draw(st.integers(0, 2)),
           "slow_step": draw(st.sampled_from([0.0, 0.0, 0.3, 1.0])),
+          "slow_arms": draw(st.booleans()),     # the slow handler ends by arming a timed source
+          "same_name": draw(st.integers(0, 3)) == 0,  # the other object carries the same name
           "schedule": [list(x) for x in draw(schedule_st)]}
 
 
@@ -57,12 +59,23 @@ class C12(Prop):
       def on_extra(c, e):
         if e.signal_name == "VSLOW":
           w.ao.time.sleep(e.payload)
+          if case.get("slow_arms"):
+            c.post_fifo(Event(signal=signals["VE"], payload=55), period=0.5, times=0, deferred=True)
         elif e.signal_name == "VSTOP":
           info["handler_stop_inv"] = s.steps
           c.stop()
           info["handler_stop_ret"] = s.steps
       chart, fn = w.make_chart(s, "ao1", on_extra=on_extra)
-      other, fn2 = w.make_chart(s, "ao2")
+
+      def on_other(c, e):
+        if e.signal_name == "VSTOP":
+          # another active object's handler stops the first one: "another thread"
+          info["stop_inv"] = s.steps
+          chart.stop()
+          info["stop_ret"] = s.steps
+          info["alive_after"] = chart.thread.is_alive()
+      other, fn2 = w.make_chart(s, "ao1" if case.get("same_name") else "ao2", on_extra=on_other)
+      chart._vf_key, other._vf_key = "ao1", "ao2"
       other.subscribe(Event(signal=signals["VC"]))
       other.start_at(fn2)
       chart.start_at(fn)
@@ -85,6 +98,8 @@ class C12(Prop):
         chart.stop()
         info["stop_ret"] = s.steps
         info["alive_after"] = chart.thread.is_alive()
+      elif case["stop_from"] == "other_handler":
+        other.post_fifo(Event(signal=signals["VSTOP"], payload=0))
       else:
         chart.post_fifo(Event(signal=signals["VSTOP"], payload=0))
       for j in range(case["posts_with_stop"]):
@@ -114,7 +129,9 @@ class C12(Prop):
     if errs:
       name, e, tb = errs[0]
       raise PropertyViolation("thread %s died: %s: %s" % (name, type(e).__name__, e), "C12:thread-error")
-    if case["stop_from"] == "outside":
+    if case["stop_from"] in ("outside", "other_handler"):
+      if "stop_ret" not in info:
+        raise PropertyViolation("the stop request sent to the other object was never carried out", "C12:setup")
       ret = info["stop_ret"]
       if info["alive_after"]:
         raise PropertyViolation("stop() returned but the object's thread is still alive", "C12:alive")
